@@ -137,7 +137,9 @@ Do(a, r2) ==
     /\ UNCHANGED picked
 
 MoveTo(c) == CanMove(roi) /\ Do([op |-> "MoveTo", x |-> c[1], y |-> c[2]], Move(roi, c))
-RotateTo(a) == CanRotate(roi) /\ a.name # roi.th.name /\ Do([op |-> "RotateTo", a |-> a.name], Rotate(roi, a))
+(* ellipses are only rotated to angle classes with a denominator <= 5: the cleared-denominator test EllV multiplies four
+   scaled lengths and would leave TLC's 32-bit integers for 5-12-13 angles *)
+RotateTo(a) == CanRotate(roi) /\ a.name # roi.th.name /\ (roi.k = "ellipse" => a.cd <= 5) /\ Do([op |-> "RotateTo", a |-> a.name], Rotate(roi, a))
 Same(op) == Do([op |-> op], roi)
 
 Next ==
